@@ -5,6 +5,7 @@ from props.common import *
 
 ID = 'C01'
 GRAD_MODES = True
+MODE_ALIAS = True
 PROPS_MODULE = 'Props.C01'
 THEOREMS = ['C01_level_row', 'C01_level_row_per', 'C01_level_col', 'C01_level_2d', 'C01_level_2d_per', 'C01_multilevel_1d', 'C01_multilevel_1d_per', 'C01_multilevel_2d', 'C01_multilevel_2d_per', 'C01_per_short_refuted', 'C01_hyps_satisfiable']
 VO = ['theories/Props/C01.vo', 'theories/Run/RunDwt.vo', 'theories/Run/RunSpec.vo']
@@ -106,13 +107,13 @@ def oracle_run(cfg):
     try:
         if cfg['kind'] == '1d':
             X = r.standard_normal((cfg['nb'], cfg['C'], cfg['N']))
-            yl, yh = DWT1DForward(J=J, wave=wn, mode=mode)(torch.tensor(X))
+            yl, yh = DWT1DForward(J=J, wave=wn, mode=lib_mode(cfg))(torch.tensor(X))
             ref = pywt.wavedec(X, wn, mode=mode, level=J, axis=-1)
             got = [yl.numpy()] + [h.numpy() for h in yh[::-1]]
             want = [ref[0]] + list(ref[1:])
         else:
             X = r.standard_normal((cfg['nb'], cfg['C'], cfg['H'], cfg['W']))
-            yl, yh = DWTForward(J=J, wave=wave_arg(cfg, 'dec'), mode=mode)(torch.tensor(X))
+            yl, yh = DWTForward(J=J, wave=wave_arg(cfg, 'dec'), mode=lib_mode(cfg))(torch.tensor(X))
             ref = pywt.wavedec2(X, pywt_arg(cfg), mode=mode, level=J, axes=(-2, -1))
             got = [yl.numpy()] + [h.numpy() for h in yh[::-1]]
             want = [ref[0]] + [np.stack(t, axis=2) for t in ref[1:]]
